@@ -15,7 +15,7 @@ using namespace vx;
 #ifndef VX_DK
 #define VX_DK K_INTEGER
 #endif
-static Type type_of(int k) { return k == K_BOOLEAN ? Type(Type::BOOLEAN) : k == K_INTEGER ? Type(Type::INTEGER) : k == K_NUMERIC ? Type(Type::NUMERIC) : k == K_LITERAL ? Type(Type::LITERAL) : Type(); }
+static Type type_of(int k) { return k == K_BOOLEAN ? Type(Type::BOOLEAN) : k == K_INTEGER ? Type(Type::INTEGER) : k == K_NUMERIC ? Type(Type::NUMERIC) : k == K_LITERAL ? Type(Type::LITERAL) : k == K_TABI ? Type(Type::INTEGER, 0, 1) : Type(); }      /* K_TABI: a table of integers, always null here (same major type as an integer, another level) */
 static Value mkv(int kind, bool isnull, long i, unsigned char c0, int len)
 {
   switch (kind) {
@@ -23,6 +23,7 @@ static Value mkv(int kind, bool isnull, long i, unsigned char c0, int len)
   case K_INTEGER: return isnull ? Value(Value::type_integer) : Value(Integer(i));
   case K_NUMERIC: return isnull ? Value(Value::type_numeric) : Value(Numeric((double)(i & 0xffff)));
   case K_LITERAL: { if (isnull) return Value(Value::type_literal); Literal* s = new Literal(); if (len > 0) s->push_back((char)c0); return Value(s); }
+  case K_TABI: return Value(Type(Type::INTEGER, 0, 1));
   default: return Value();
   }
 }
@@ -48,7 +49,7 @@ extern "C" void c05_store()
   bool snull = in_bool(0), dnull = in_bool(1), from_var = in_bool(2), safe = in_bool(3), locked = in_bool(4);
   long si = in_long(0), di = in_long(1); unsigned char sc = in_uchar(0), dc = in_uchar(1); int sl = in_int(0), dl = in_int(1);
   verif_assume(sl >= 0 && sl <= 1 && dl >= 0 && dl <= 1);
-  if (VX_SK == K_NOTYPE) snull = true; if (VX_DK == K_NOTYPE) dnull = true;
+  if (VX_SK == K_NOTYPE || VX_SK == K_TABI) snull = true; if (VX_DK == K_NOTYPE || VX_DK == K_TABI) dnull = true;
   /* pre-state: A holds the source value (as a variable does: lvalue), B holds something of kind VX_DK */
   ctx._storage_pool[0].value.swap(mkv(VX_SK, snull, si, sc, sl).to_lvalue(true));
   ctx._storage_pool[1].value.swap(mkv(VX_DK, dnull, di, dc, dl).to_lvalue(true));
@@ -85,11 +86,12 @@ extern "C" void c05_let_through_iterator()
 {
   static Context ctx(1, 2);
   ctx._storage_pool.reserve(2);
-  Symbol& it = ctx.registerSymbol("E", type_of(VX_SK));
+  Symbol& it = ctx.registerSymbol("E", type_of(VX_DK));
   bool snull = in_bool(0), enull = in_bool(1), slval = in_bool(2), locked = in_bool(3);
+  if (VX_SK == K_NOTYPE || VX_SK == K_TABI) snull = true; if (VX_DK == K_NOTYPE || VX_DK == K_TABI) enull = true;
   long si = in_long(0), ei = in_long(1); unsigned char sc = in_uchar(0), ec = in_uchar(1); int sl = in_int(0), el = in_int(1);
   verif_assume(sl >= 0 && sl <= 1 && el >= 0 && el <= 1);
-  static Value elem; elem.swap(mkv(VX_SK, enull, ei, ec, el).to_lvalue(true));        /* the table element */
+  static Value elem; elem.swap(mkv(VX_DK, enull, ei, ec, el).to_lvalue(true));        /* the table element */
   ctx._storage_pool[0].value.swap(Value(&elem).to_lvalue(true));                      /* iterator = pointer to the element */
   it.safety(true); it.locked(locked);
   static Value src; src.swap(mkv(VX_SK, snull, si, sc, sl)); src.to_lvalue(slval);
@@ -98,7 +100,8 @@ extern "C" void c05_let_through_iterator()
   bool thrown = false;
   try { let.doit(ctx); } catch (RuntimeError&) { thrown = true; } catch (...) { verif_assert(false, "C01: only RuntimeError may leave an assignment"); return; }
   VX_WITNESS();
-  if (locked) { verif_assert(thrown && same(elem, VX_SK, enull, ei, ec, el), "C09: a read-only iterator (constant table) refuses assignment and the element is unchanged"); return; }
+  if (locked) { verif_assert(thrown && same(elem, VX_DK, enull, ei, ec, el), "C09: a read-only iterator (constant table) refuses assignment and the element is unchanged"); return; }
+  if (VX_SK != VX_DK) { verif_assert(thrown && same(elem, VX_DK, enull, ei, ec, el), "C09/C06: a value of another type - also one that differs only in its number of dimensions - is refused through the iterator and the element is unchanged (tables stay uniform)"); return; }
   verif_assert(!thrown, "C06: an assignment of the same type through the iterator succeeds");
   if (thrown) return;
   verif_assert(same(elem, VX_SK, snull, si, sc, sl), "C06: a write through the forall iterator lands in the table element");
